@@ -1072,11 +1072,14 @@ def run(tier, seed):
         ["the plain-mode reference is produced with TTS explicitly set to \"None\" (the rule files test $TTS='none', the API default, and would otherwise speak letters differently)",
          "value grammars accept the union of SSML 1.0/1.1 readings (sign optional, unit letters case-insensitive); documented value ranges are only counted (remark_* counters)",
          "words are compared with pause punctuation (, ;) and all white space removed on both sides; XML character references in engine output are decoded first",
-         "failures of set_mathml / get_spoken_text are counted (C08 judges them), an engine-mode failure makes the case inconclusive",
+         "a call that fails in plain mode is counted and not judged (C08/C11 judge failures); a call that fails only under an engine makes the rest of that walk inconclusive",
+         "every speech-producing entry point is judged: get_spoken_text, get_overview_text, the speech of every navigation command in read and overview speak mode",
          "the C13Probe speech style (private copy of Rules/) adds rules using volume/voice/gender/audio/pronounce/nested commands; rule files are an input of the library"],
         t0,
-        rule="random textbook expressions decorated with capital/Greek/chemistry-like identifiers, letter indices, author ids and (rarely) markup characters, spoken under "
-             "TTS=None/SSML/SAPI5 with identical random Rate/MathRate/PauseFactor/Pitch/Volume/CapitalLetters_*/Bookmark/Verbosity preferences (6% hostile values: zero, "
-             "negative, tiny, huge, non-finite) for every shipped language x style and the probe style; an evaluation is one engine output judged; non-trivial = the engine "
-             "output contained at least one tag; distinct by (expression shape, configuration classes, engine)",
+        rule="random textbook expressions decorated with capital/Greek/chemistry-like identifiers, letter indices, author ids and tokens (mtext, mi, ms, mo, mn) "
+             "containing < > & ' \" alone and inside words; three sessions get the same history (preferences, set_mathml, get_spoken_text, get_overview_text and for "
+             "30% of the cases a random walk of navigation commands incl. ToggleSpeakMode) and differ only in TTS=None/SSML/SAPI5; random Rate/MathRate/PauseFactor/"
+             "Pitch/Volume/CapitalLetters_*/Bookmark/Verbosity/NavMode/NavVerbosity preferences (6% hostile values) for every shipped language x style and the probe "
+             "style; an evaluation is one engine output (spoken text, overview text or the speech of one navigation command) judged against the plain-mode output of "
+             "the same call; non-trivial = the engine output contained at least one tag; distinct by (expression shape, configuration classes, engine/entry point)",
         min_nontrivial=1500 if tier == "quick" else 20000, harness_errors=errors, known_replayed=known, fixed_failures=fixed_failures)
